@@ -596,7 +596,8 @@ DetectorErrorModel DetectorErrorModel::py_get_slice(int64_t start, int64_t step,
         } else {
             auto args = result.arg_buf.take_copy(op.arg_data);
             auto targets = result.target_buf.take_copy(op.target_data);
-            result.instructions.push_back(DemInstruction{args, targets, op.tag, op.type});
+            auto tag = result.tag_buf.take_copy(op.tag);
+            result.instructions.push_back(DemInstruction{args, targets, tag, op.type});
         }
     }
     return result;
